@@ -31,7 +31,9 @@ def gen(rng, i, quick, suite=None, provs=None):
     marks.append((len(ops) - 1, g.epoch))
     psk_n = [0]
     for r in range(nrounds):
-        k = rng.choice(["normal", "normal", "normal", "psk", "gce", "custom", "identity", "extjoin", "resync", "shrink"])
+        k = rng.choice(["normal", "normal", "normal", "psk", "gce", "custom", "identity", "extjoin", "resync", "shrink", "dupadd"])
+        if k == "dupadd" and (len(g.outsiders()) < 3 or len(g.in_group) < 2):
+            k = "normal"
         if len(g.in_group) < 3 and k in ("shrink", "resync"):
             k = "normal"
         kinds[k] = kinds.get(k, 0) + 1
@@ -68,6 +70,39 @@ def gen(rng, i, quick, suite=None, provs=None):
             for m in rng.shuffle([x for x in g.in_group if x != c]):
                 ops.append({"op": "deliver", "to": m, "msg": cid})
             ops.append({"op": "deliver", "to": c, "msg": cid} if rng.chance(1, 3) else {"op": "apply", "who": c})
+            g.epoch += 1
+            g.commit_ids.append(cid)
+            ops.append({"op": "observe", "who": c, "observe": "all"})
+        elif k == "dupadd":
+            # the same party proposed for addition by two members (one proposal is dropped when it
+            # reaches the tree), followed by further adds: the surviving adds keep their order
+            outs = g.outsiders()
+            d_, later = outs[0], outs[1:3]
+            c = rng.choice(g.in_group)
+            for m in g.in_group:
+                g.set_opts(m, encrypt_controls=False)
+            g.set_opts(c, path_required=rng.chance(1, 2), tree_ext=True, single_welcome=rng.chance(1, 2), encrypt_controls=False)
+            kpd = g.fresh("kp")
+            ops.append({"op": "kp", "who": d_, "id": kpd})
+            for p_ in rng.shuffle(g.in_group)[:2]:
+                pp = g.fresh("p")
+                ops.append({"op": "propose", "who": p_, "kind": "add", "kp": kpd, "id": pp})
+                for m in rng.shuffle(g.in_group):
+                    if m != p_:
+                        ops.append({"op": "deliver", "to": m, "msg": pp})
+            kps = []
+            for x in later:
+                kx = g.fresh("kp")
+                ops.append({"op": "kp", "who": x, "id": kx})
+                kps.append(kx)
+            cid = g.fresh("c")
+            ops.append({"op": "commit", "who": c, "id": cid, "add": kps})
+            for m in rng.shuffle([x for x in g.in_group if x != c]):
+                ops.append({"op": "deliver", "to": m, "msg": cid})
+            ops.append({"op": "apply", "who": c})
+            for x in [d_] + later:
+                ops.append({"op": "join", "who": x, "welcome_any": cid})
+                g.in_group.append(x)
             g.epoch += 1
             g.commit_ids.append(cid)
             ops.append({"op": "observe", "who": c, "observe": "all"})
